@@ -8,7 +8,7 @@ import overlay
 
 VERIF = os.path.dirname(os.path.dirname(os.path.abspath(__file__)))
 CACHE = os.environ.get("VERIF_CACHE", os.path.join(VERIF, ".cache"))
-PROPS_WITH_SPECS = {"C16", "C18", "C01", "C05", "C07", "C08", "C10", "C11", "C12", "C15", "C19", "C20"}
+PROPS_WITH_SPECS = {"C16", "C18", "C01", "C05", "C06", "C07", "C08", "C10", "C11", "C12", "C15", "C19", "C20"}
 
 
 def dump_mir(tag):
